@@ -85,6 +85,7 @@ import (
 
 	"verifsim/kernel"
 	"verifsim/parsersim"
+	"verifsim/simrt"
 )
 
 func init() {
@@ -102,6 +103,12 @@ func init() {
 
 func verifParse(filename string, input []byte, o *parsersim.Opts, ctx *kernel.Ctx) (val any, err error, esc any, cnt uint64) {
 	opts := []Option{GlobalStore("sim", ctx)}
+	ctx.Nested = func() {
+		simrt.Nested(200000, func() {
+			np := kernel.Plan{Seed: ctx.Plan.Seed ^ 0x5bd1e995, PredTruePct: 50, StateKeys: 2, MaxEvents: 200}
+			Parse("nested", []byte("ab\n"), GlobalStore("sim", kernel.NewCtx(&np)), MaxExpressions(300))
+		})
+	}
 %[6]s
 	if o.Recover != nil {
 		opts = append(opts, Recover(*o.Recover))
@@ -151,7 +158,7 @@ func (gp *genParser) glue() string {
 	gj, _ := json.Marshal(gp.G)
 	var optCode, deferCode string
 	if gp.Has["Statistics"] {
-		optCode += "\tvar st Stats\n\tif o.Stats {\n\t\tctx.Tick = &st.ExprCnt\n\t\topts = append(opts, Statistics(&st, \"no match\"))\n\t}\n"
+		optCode += "\tvar st Stats\n\tst.ExprCnt = o.StatsCarry\n\tif o.Stats {\n\t\tctx.Tick = &st.ExprCnt\n\t\topts = append(opts, Statistics(&st, \"no match\"))\n\t}\n"
 		deferCode = "\t\tcnt = st.ExprCnt"
 	}
 	if gp.Has["Memoize"] {
